@@ -1,5 +1,6 @@
-# C15: allocation failure.  spec/Alloc.tla (+ mc/AllocMC), region calls under every fault position validated by
-# trace/RegionTrace (CHECKS = {"fault"}), object scenarios validated by trace/AllocTrace.
+# C15: allocation failure.  spec/Alloc.tla (+ mc/AllocMC, mc/AllocLoopMC), region calls under every fault position
+# validated by trace/RegionTrace (CHECKS = {"fault"}), object scenarios and focused object cases (one target call, every
+# allocation request of it) validated by trace/AllocTrace.
 import json
 import os
 import random
@@ -21,8 +22,19 @@ CLAIMS = {
              "with the designated broken region; broken operands propagate; fini accepts), object scenarios (images, "
              "setters, gradients, trapezoids, glyph cache, filters, fills) by AllocTrace (no free of a non-live block, "
              "constructors return NULL and release everything, nothing live after destruction, no pixel outside the "
-             "permitted rectangles changes, skipped work leaves pixels untouched or correct). A crash/ASan report "
-             "ends the trace in an event no action matches.",
+             "permitted rectangles changes, skipped work leaves pixels untouched or correct). Focused object cases "
+             "enumerate, per API entry point, the arguments that decide its allocations (both glyph entry points x every "
+             "sequence of glyph formats up to 3 and longer runs x mask format same / different / component alpha; every "
+             "constructor; setters with and without an earlier value, clip regions below and above the 16-box stack "
+             "array of the 16<->32 conversion; trapezoid / triangle / fill entry points below and above their stack "
+             "arrays; general-path composites with stack and heap scanline buffers, bilinear cover iterators, formats "
+             "without a float store, destinations with an alpha map, multi-box clips) and refuse every allocation "
+             "request of that one call, once and for the rest of the call; afterwards the same request is repeated "
+             "without faults on an untouched destination and must draw exactly what the fault-free run drew (the "
+             "objects a failed drawing call used are unchanged), and everything is destroyed. AllocLoopMC model-checks "
+             "the item loop of the glyph entry points (temporary, per-run routine cache, lazily created helper) under "
+             "every fault schedule (negative configs: continue with a stale routine, leaked helper, leaked temporary). "
+             "A crash/ASan report ends the trace in an event no action matches.",
         ref="5 C15"),
 }
 WRAP = ["-Wl,--wrap=malloc,--wrap=calloc,--wrap=realloc,--wrap=free"]
@@ -102,6 +114,166 @@ def focused_scenarios(rng, n):
     return out
 
 
+# ------------------------------------------------------------------------------------------------------------
+# focused object cases (harness/drv_fault.c, "@casefile" mode): ONE target call per execution, every allocation
+# request of that call refused in turn.  The generators below enumerate along the structure of the entry points:
+# which arguments decide how many allocations a call makes and which branch each of them sits on.
+
+FMT = {"a1": 0, "a8": 1, "argb": 2, "a4": 3, "xrgb": 4, "565": 5, "2101010": 6}
+OPS = {"over": 0, "add": 1, "src": 2, "disjoint_over": 3, "saturate": 4, "in_reverse": 5, "hsl_hue": 6, "over_reverse": 7}
+MAXPIX = 2304
+
+
+def glyph_case(name, entry, mf, op, srckind, fmts, W=None, H=8, rect=None, pos=None, size=(6, 6), gap=1):
+    """glyph i of format fmts[i], size w x h, boxes side by side (never overlapping: a pixel is drawn by at most
+       one glyph, so 'untouched or as in the complete drawing' is decidable per pixel)"""
+    w, h = size
+    n = len(fmts)
+    if W is None:
+        W = max(8, 1 + n * (w + gap) + 1)
+    assert W * H <= MAXPIX
+    if rect is None:
+        rect = (0, 0, W, H)
+    p = [entry, FMT[mf], OPS[op], srckind, W, H] + list(rect) + [n]
+    for i, f in enumerate(fmts):
+        x, y = pos[i] if pos else (1 + i * (w + gap), 1)
+        p += [FMT[f], x + 1, y + 2, w, h]          # the driver inserts with origin (1, 2): box = (x, y, x + w, y + h)
+    return (name, "glyphs", p)
+
+
+def glyph_cases(rng, quick):
+    """pixman_composite_glyphs (temporary mask: image, pixels, add_glyphs' lazily created white source, whatever the
+       final composite needs) and pixman_composite_glyphs_no_mask, systematically:
+       entry point x EVERY sequence of glyph formats of length 1..3 over {a1, a8, a8r8g8b8} (all one format, and every
+       way of mixing them within one call, every position of the first glyph that needs the white source, runs of
+       2 and 3 glyphs of a format) x mask format {a1, a8, a8r8g8b8 = component alpha} (so: same as the glyphs,
+       different, component alpha);
+       plus longer runs, a4 glyphs, glyphs partly / entirely outside the mask rectangle, ADD, an image source, and
+       masks wide enough for the general path's heap scanline buffers."""
+    import itertools
+    out = []
+    base = ["a1", "a8", "argb"]
+    seqs = [s for n in (1, 2, 3) for s in itertools.product(base, repeat=n)]
+    for si, sq in enumerate(seqs):
+        for mf in base:
+            out.append(glyph_case("gm%d%s" % (si, mf), 0, mf, "over", 0, sq))
+        out.append(glyph_case("gn%d" % si, 1, "a8", "over", 0, sq))
+    longer = [("a8",) * 5, ("argb", "a8", "a8", "argb", "a8"), ("a1", "a1", "a8", "a8", "a1"), ("a4", "a4", "a8"),
+              ("a8", "a4", "a4", "a4"), ("argb", "argb", "a1", "a1")]
+    if not quick:
+        longer += [tuple(rng.choice(base + ["a4"]) for _ in range(rng.randint(4, 8))) for _ in range(40)]
+    for li, sq in enumerate(longer):
+        for mf in (base if quick else base + ["a4"]):
+            out.append(glyph_case("gl%d%s" % (li, mf), 0, mf, "over", 0, sq))
+        out.append(glyph_case("gln%d" % li, 1, "a8", "over", 0, sq))
+    # other operators / an image source / mask rectangle that cuts glyphs or leaves them out altogether
+    var = [("a8", "a8", "a8"), ("a8", "argb", "argb"), ("argb", "a8", "a8"), ("a1", "a1", "a1")]
+    for vi, sq in enumerate(var):
+        for mf in ("a8", "argb"):
+            out.append(glyph_case("ga%d%s" % (vi, mf), 0, mf, "add", 1, sq))
+            out.append(glyph_case("gr%d%s" % (vi, mf), 0, mf, "over", 0, sq, rect=(4, 2, 19, 6)))      # cuts 1st and 3rd
+            out.append(glyph_case("go%d%s" % (vi, mf), 0, mf, "over", 0, sq, rect=(8, 0, 22, 8)))      # 1st glyph outside
+            out.append(glyph_case("gp%d%s" % (vi, mf), 0, mf, "over", 1, sq, rect=(0, 0, 14, 8)))      # 3rd glyph outside
+        out.append(glyph_case("gan%d" % vi, 1, "a8", "add", 1, sq))
+    # the final composite of the mask variant on the general path with heap buffers (float pipeline from 512 pixels)
+    for vi, sq in enumerate(var[:2] if quick else var):
+        for mf in ("a8", "argb"):
+            out.append(glyph_case("gw%d%s" % (vi, mf), 0, mf, "disjoint_over", 0, sq, W=520, H=4, size=(6, 3),
+                                  pos=[(3, 0), (250, 1), (512, 0)]))
+    if not quick:
+        for i in range(150):
+            n = rng.randint(1, 6)
+            w, h = rng.randint(1, 9), rng.randint(1, 6)
+            W = 2 + n * (w + 2) + rng.randint(0, 6)
+            H = h + rng.randint(1, 4)
+            sq = [rng.choice(base + ["a4"]) for _ in range(n)]
+            pos = [(1 + k * (w + 2) + rng.randint(-1, 1), rng.randint(-1, H - h)) for k in range(n)]
+            rect = (rng.randint(0, W // 3), rng.randint(0, 1), rng.randint(2 * W // 3, W), rng.randint(H - 1, H))
+            out.append(glyph_case("gx%d" % i, rng.randint(0, 1), rng.choice(base + ["a4"]),
+                                  rng.choice(["over", "add"]), rng.randint(0, 1), sq, W=W, H=H, rect=rect, pos=pos,
+                                  size=(w, h), gap=2))
+    return out
+
+
+def ctor_cases(rng, quick):
+    out = []
+    for f in ("a1", "a8", "argb", "565", "2101010"):
+        for which in (0, 1, 2):                          # cleared / no_clear / caller's pixels
+            out.append(("cb%d%s" % (which, f), "ctor", [which, FMT[f], 16, 4]))
+    out.append(("cb0one", "ctor", [0, FMT["argb"], 1, 1]))
+    out.append(("cs", "ctor", [3]))
+    for which in (4, 5, 6):
+        for n in ((1, 3, 300) if quick else (1, 2, 3, 17, 64, 300, 400)):
+            out.append(("cg%d_%d" % (which, n), "ctor", [which, n]))
+    out.append(("cc", "ctor", [7]))
+    for f in ("a1", "a8", "argb"):
+        for (w, h) in ((6, 6), (1, 1), (33, 2)):
+            out.append(("ci%s%dx%d" % (f, w, h), "ctor", [8, FMT[f], w, h]))
+    # separable convolution blocks: scale x, scale y (1/256 units), reconstruct/sample kernels, subsample bits
+    for i, (sx, sy, kx, ky, bx, by) in enumerate([(256, 256, 1 + 6 * 2, 2 + 6 * 1, 1, 1), (384, 192, 3 + 6 * 4, 4 + 6 * 0, 2, 1),
+                                                  (1024, 64, 5 + 6 * 1, 2 + 6 * 2, 0, 3)]):
+        out.append(("cf%d" % i, "ctor", [9, sx, sy, kx, ky, bx, by]))
+    return out
+
+
+def setter_cases(rng, quick):
+    out = []
+    for prev in (0, 1):
+        for a in (0, 1, 2, 3):
+            out.append(("st%d%d" % (prev, a), "setter", [0, prev, a]))
+        for (a, b) in ((1, 1), (3, 3), (9, 9)):
+            out.append(("sf%d%dx%d" % (prev, a, b), "setter", [1, prev, a, b]))
+        out.append(("ss%d" % prev, "setter", [2, prev]))
+        for a in (1, 2, 3, 16, 17, 40, 64):              # the 16 <-> 32 bit conversion switches to the heap above 16 boxes
+            out.append(("sc%d_%d" % (prev, a), "setter", [3, prev, a]))
+            out.append(("sk%d_%d" % (prev, a), "setter", [4, prev, a]))
+    out.append(("sb", "setter", [5, 1]))
+    out.append(("sn", "setter", [6, 1, 3]))
+    return out
+
+
+def draw_cases(rng, quick):
+    out = []
+    for op in ("over", "add"):
+        for mf in ("a1", "a8"):
+            for n in ((1, 6) if quick else (1, 2, 6, 12)):
+                out.append(("dt%s%s%d" % (op, mf, n), "draw", [0, OPS[op], FMT[mf], n]))
+                out.append(("dg%s%s%d" % (op, mf, n), "draw", [1, OPS[op], FMT[mf], n]))
+    for which in (2, 3, 4):
+        for n in (1, 6, 12):
+            out.append(("da%d_%d" % (which, n), "draw", [which, 0, 0, n]))
+    # fill_rectangles keeps up to 6 boxes on the stack; fill_boxes builds a region from them (init_rects, validate),
+    # intersects it with the clip, then fills directly (opaque) or composites box by box (translucent)
+    for which in (5, 6):
+        for opaque in (0, 1):
+            for n in ((1, 6, 7, 20) if which == 5 else (1, 7, 20)):
+                for nclip in (0, 3, 20):
+                    out.append(("df%d%d_%d_%d" % (which, opaque, n, nclip), "draw", [which, OPS["over"], opaque, n, nclip]))
+        out.append(("df%dsrc" % which, "draw", [which, OPS["src"], 0, 9, 5]))
+        out.append(("df%dadd" % which, "draw", [which, OPS["add"], 0, 9, 0]))
+    # composite32 on the general path: width decides stack / heap scanline buffers (narrow from 2045 pixels, float
+    # from 512), the source kind decides the iterator (bilinear cover iterators own a line buffer), formats without a
+    # float store go through a per-row temporary, a multi-box clip makes the composite region allocate
+    wide = [("disjoint_over", 520, s, m) for s in (0, 1, 2, 3, 4, 5, 6, 7) for m in ((0,) if quick and s not in (1, 3) else (0, 1, 2))]
+    wide += [("saturate", 520, 1, 1), ("hsl_hue", 520, 4, 2)]
+    narrow = [("in_reverse", 2050, 1, 1), ("over_reverse", 2050, 4, 0), ("add", 2050, 0, 2)]
+    bil = [(op, 200, 3, m) for op in ("in_reverse", "src", "over", "add", "over_reverse") for m in (1, 2)]
+    bil += [("in_reverse", 2050, 3, 1), ("hsl_hue", 520, 3, 1)]
+    for (op, w, s, m) in wide + narrow + bil:
+        out.append(("dc%s%d_%d%d" % (op, w, s, m), "draw", [7, OPS[op], w, s, m, 0, 0]))
+    for (op, w, s, m, nclip, dk) in (("over", 64, 1, 1, 40, 0), ("over", 64, 0, 0, 33, 0), ("disjoint_over", 64, 1, 0, 40, 0),
+                                     ("over", 600, 1, 0, 0, 1), ("disjoint_over", 520, 7, 0, 0, 1), ("in_reverse", 64, 3, 1, 40, 0),
+                                     # destination with an alpha map: per-row temporaries of the destination iterators
+                                     ("over", 16, 0, 0, 0, 2), ("in_reverse", 16, 1, 1, 0, 2), ("disjoint_over", 16, 1, 0, 0, 2),
+                                     ("over", 300, 1, 1, 0, 2), ("saturate", 300, 0, 0, 0, 2), ("src", 16, 1, 0, 0, 2)):
+        out.append(("dk%s%d_%d%d_%d_%d" % (op, w, s, m, nclip, dk), "draw", [7, OPS[op], w, s, m, nclip, dk]))
+    return out
+
+
+def focused_object_cases(rng, quick):
+    return glyph_cases(rng, quick) + ctor_cases(rng, quick) + setter_cases(rng, quick) + draw_cases(rng, quick)
+
+
 def run(prop, args):
     chk = vf.Check(prop, args.tier, args.seed)
     quick = args.tier == "quick"
@@ -115,6 +287,15 @@ def run(prop, args):
         chk.add_tlc(r, ("negative config (must be rejected) " if neg else "model check ") + cfg)
         if not neg and (r.inv_violation or "violated" in r.out):
             raise vf.Infra("AllocMC violates its own properties:\n" + r.out[-2000:])
+
+    # the item loop of the glyph entry points (temporary, per-run routine cache, lazily created helper) under every
+    # fault schedule and every list of item kinds up to 4
+    for cfg, neg in (("AllocLoopMC.cfg", False), ("AllocLoopMC_neg_continue.cfg", True),
+                     ("AllocLoopMC_neg_leak_helper.cfg", True), ("AllocLoopMC_neg_leak_tmp.cfg", True)):
+        r = vf.tlc_mc(os.path.join(base, "AllocLoopMC.tla"), cfg=os.path.join(base, cfg), workers=6, expect_violation=neg)
+        chk.add_tlc(r, ("negative config (must be rejected) " if neg else "model check ") + cfg)
+        if not neg and (r.inv_violation or "violated" in r.out):
+            raise vf.Infra("AllocLoopMC violates its own properties:\n" + r.out[-2000:])
 
     # 2. region calls under every fault position
     exe_r, px = vf.build_driver("drv_region", "asan", extra_src=["common/vfault.c"], ldflags=WRAP)
@@ -230,9 +411,67 @@ def run(prop, args):
     chk.sample({"object_scenarios": SCENARIOS, "fault_positions": nsites})
     vf.validate_batches(chk, "AllocTrace", otraces, parallel=10, timeout=1500, label="object fault traces")
 
+
+    # 4. focused object cases: every allocation request of ONE target call (glyph entry points x formats x mask
+    #    formats x counts, every constructor, the setters that own memory, the other drawing entry points)
+    cases = focused_object_cases(rng, quick)
+    names = [c[0] for c in cases]
+    if len(set(names)) != len(names):
+        raise vf.Infra("focused object cases: duplicate case names")
+    nb = 10 if quick else 12
+    modes = 3 if quick else 7                  # bit m: mode m (0 once, 1 rest of the call, 2 rest of the execution)
+    ftraces, ncalls, fired, nreq = [], 0, 0, {}
+    # the same library with SIMD back ends switched off takes other branches (fast_bilinear_cover_iter_init instead of
+    # the SSSE3 iterator, the C fast paths / the general path instead of SSE2 ones)
+    draws = [c for c in cases if c[1] == "draw"]
+    bil = [c for c in draws if c[2][0] == 7 and c[2][3] == 3]
+    variants = [("", None, cases), ("nossse3", {"PIXMAN_DISABLE": "ssse3"}, bil if quick else draws)]
+    if not quick:
+        variants.append(("nosimd", {"PIXMAN_DISABLE": "mmx sse2 ssse3"}, cases))
+    for tag, env, vcases in variants:
+        for sd in seeds[:1] if quick or tag else seeds[:2]:
+            nbv = min(nb, max(1, len(vcases) // 8))
+            for bi in range(nbv):
+                part = vcases[bi::nbv]
+                cf = os.path.join(wd, "cases-%s%d-%d.txt" % (tag, sd, bi))
+                open(cf, "w").write("".join("C %s%s %s %s\n" % (tag, nm, fam, " ".join(map(str, p))) for nm, fam, p in part))
+                tr = os.path.join(wd, "foc-%s%d-%d.ndjson" % (tag, sd, bi))
+                rc, outp = vf.run_driver([exe_f, tr, "@" + cf, str(sd), "1000", str(modes)], tr, env=env, timeout=900)
+                if rc == 3:
+                    raise vf.Infra("drv_fault could not read its case file: %s" % (outp or "")[-1500:])
+                for ln in (outp or "").splitlines():
+                    f = ln.split()
+                    if len(f) == 2 and f[1].isdigit() and not tag:
+                        nreq[f[0]] = int(f[1])
+                ftraces.append(tr)
+                cur = None
+                for line in open(tr):
+                    if line.startswith('{"e":"Reset"'):
+                        cur = line
+                    elif line.startswith('{"e":"End"'):
+                        chk.evaluations += 1
+                        if '"nfail":0' not in line:
+                            chk.distinct_keys.add(hash((cur, line[:60])))
+                            fired += 1
+    fams = {}
+    for nm, fam, p in cases:
+        d = fams.setdefault(fam, {"cases": 0, "with_allocations": 0, "positions": 0})
+        d["cases"] += 1
+        d["with_allocations"] += 1 if nreq.get(nm, 0) else 0
+        d["positions"] += nreq.get(nm, 0)
+    chk.extra["focused_object_cases"] = fams
+    chk.extra["focused_object_calls_with_refusals"] = fired
+    if not fired:
+        raise vf.Infra("focused object cases: no allocation was ever refused (vacuous)")
+    chk.sample({"focused_object_case": list(cases[0])})
+    vf.validate_batches(chk, "AllocTrace", ftraces, parallel=10, timeout=1500, label="focused object traces")
+
     chk.extra["rule"] = ("a case is one API call executed under a fault schedule; distinct non-trivial = distinct calls "
                          "during which at least one allocation was refused")
-    chk.assumptions += ["allocations are observed at malloc/calloc/realloc/free (link-time --wrap; pixman linked statically)",
+    chk.assumptions += ["focused object cases: glyph / fill boxes of one call never overlap, so that 'untouched or as in the "
+                        "complete drawing' is decidable per pixel; the implementation chain (built once per process by the "
+                        "first drawing call) is created before the first case and is not subjected to faults",
+                        "allocations are observed at malloc/calloc/realloc/free (link-time --wrap; pixman linked statically)",
                         "a drawing call's permitted rectangles are bounds and the clip whose setter reported success",
                         "ASan build: a memory error aborts and the trace ends in an event no action matches"]
     return chk.finish()
